@@ -8,6 +8,7 @@ EXTENDS Civil, LunarTable, Terms, GanZhi, TraceKit   \* (Vocab comes in through 
 tvars == << l, rej >>
 SeqSet(s) == { s[i] : i \in 1..Len(s) }
 T4(t) == [i \in 1..Len(t) |-> Row4(t[i])]
+AbsV(x) == IF x < 0 THEN -x ELSE x
 
 (***************************************************************************)
 (* C06Year                                                                 *)
@@ -79,14 +80,14 @@ C06Checks(e) ==
                      (IF n = 0 /\ scoped THEN Chk("C06.next.zero", key, res = f) ELSE 0)
                      + (IF n = 1 /\ pairNext THEN Chk("C06.next.successor", << key, res >>, res = SuccIn(T, TN, f[1], f[2])) ELSE 0)
                      + (IF n = -1 /\ pairPrev THEN Chk("C06.next.predecessor", << key, res >>, res = PredIn(T, TP, f[1], f[2])) ELSE 0)
-                     \* n forward then n back returns to the start (no exempt year within reach: |n| <= 40 < 4 years)
-                     + (IF ~(\E z \in (y - 4)..(y + 4) : Exempt(z)) THEN Chk("C06.next.back", << key, back >>, back = f) ELSE 0)
+                     \* n forward then n back returns to the start (no exempt year within reach of the walk)
+                     + (IF ~(\E z \in (y - 4 - AbsV(n) \div 12)..(y + 4 + AbsV(n) \div 12) : Exempt(z)) THEN Chk("C06.next.back", << key, back >>, back = f) ELSE 0)
                      \* moving n months = moving one month n times
-                     + (IF Len(x) = 17 /\ ~(\E z \in (y - 4)..(y + 4) : Exempt(z))
+                     + (IF Len(x) = 17 /\ ~(\E z \in (y - 4 - AbsV(n) \div 12)..(y + 4 + AbsV(n) \div 12) : Exempt(z))
                           THEN Chk("C06.next.n-equals-n-times-one", << key, res >>, x[13] = 0 /\ << x[14], x[15], x[16], x[17] >> = res)
                           ELSE 0)
                      \* the walk is monotone: first day strictly moves in the direction of n
-                     + (IF scoped /\ n # 0 /\ ~(\E z \in (y - 4)..(y + 4) : Exempt(z))
+                     + (IF scoped /\ n # 0 /\ ~(\E z \in (y - 4 - AbsV(n) \div 12)..(y + 4 + AbsV(n) \div 12) : Exempt(z))
                           THEN Chk("C06.next.direction", << key, res >>, (n > 0) <=> (res[4] > f[4])) ELSE 0)))
 
 C06Year == IsEv("C06Year") /\ Consume(C06Checks(Trace[l]))
@@ -295,7 +296,6 @@ C05Year == IsEv("C05Year") /\ Consume(C05Checks(Trace[l]))
 (***************************************************************************)
 (* C02Year: new-moon days and the leap rule.                               *)
 (***************************************************************************)
-AbsV(x) == IF x < 0 THEN -x ELSE x
 C02Checks(e) ==
   LET y == e.y
       T == T4(e.t)
